@@ -596,7 +596,7 @@ def run(rep, tier="quick", srcdir=None, only=None):
 
 
 MANIFEST = {
-    "technique": "typed AST matching (clang-query), mixed-radix table agreement on IR constants, conditional constant propagation of every documented identifier through the inlined IR, must-pass rules",
+    "technique": "typed AST matching (clang-query), mixed-radix table agreement on IR constants, conditional constant propagation of every documented identifier through the inlined IR, must-pass rules + concrete evaluation of type-indexed predicates over every queue type constant and of the priority normalisation over a (class, relpri, fallback) grid",
     "level": "the global-queue mapping is decided for every documented identifier x flag and every single undefined flag bit by constant propagation (no "
              "execution), the attribute encoder/decoder pair and table size structurally, the qos code-space discipline on the typed AST, frame push/pop "
              "pairing on every path; dispatch_assert_queue semantics over all frame stacks are not decided",
